@@ -294,9 +294,12 @@ def decision_names(spec):
     return set(out)
 
 
-def ensure_decision(rng, spec, body):
+def ensure_decision(rng, spec, body, states_only=False):
     """Opti rejects constraints without decision variables: make sure a state element is involved."""
     dn = decision_names(spec)
+    if states_only:
+        # controls / per-interval quantities at tf repeat the last interval's value and can cancel against t0 (N=1)
+        dn = {s["name"] for s in spec["states"]}
     if any(n[0] == "s" and n[1] in dn for n in E.walk(body)):
         return body
     return ["+", body, rng.choice(spec["leaves"]["x"])]
@@ -315,7 +318,7 @@ def gen_constraint(rng, spec, cid, grids=("control",), allow_offsets=True, allow
             body = E.rand_expr(rng, sig, depth=1)
             if not E.is_signal(body, names):
                 body = ["+", body, rng.choice(sig)]
-            return [k, ensure_decision(rng, spec, body)]
+            return [k, ensure_decision(rng, spec, body, states_only=True)]
         n = rng.choice([1, 1, 2])
         rr = rng.random()
         lhs = []
